@@ -79,6 +79,13 @@ def judge_case(ctx, case, R, M, S):
         ctx.hist["skipped_inexact"] = ctx.hist.get("skipped_inexact", 0) + 1
         return
     c = case["content"]
+    # measured: initial assignments that name a reaction rate / a surrogate output ("even reaction rates")
+    rates = {k for k, _ in c["rxns"]} | {o for _, su in c["surs"] for o in su["outs"]}
+    n_rate = sum(1 for _, v in c["vars"] + c["pars"] if "ia" in v and rates & set(v["ia"]["args"]))
+    if n_rate:
+        d = ctx.extra_cov.setdefault("initial_assignments_over_rates", {"contents": 0, "assignments": 0})
+        d["contents"] += 1
+        d["assignments"] += n_rate
     nontrivial = bool(c["derived"]) or any("ia" in v for _, v in c["vars"] + c["pars"])
     ctx.count({k: case[k] for k in ("content", "queries")}, case.get("shape", ""), nontrivial)
     nq = len(case["queries"])
